@@ -42,7 +42,7 @@ TARGETS = [('path', 4), ('existing', 4), ('handle', 2), ('dirty_handle', 2), ('b
 def gen_plan(rng, tier, index):
     kind = rng.wpick([('rdms', 4), ('data', 3), ('result', 2)])
     plan = {'kind': kind, 'decorate': rng.subset(['unicode', 'naninf', 'matrix', 'nomeasure', 'floatdesc', 'emptystr', 'ragged', 'emptyarr', 'bigendian', 'nonestr', 'blanks'], 0.0, 0.8),
-            'dec_seed': rng.randrange(10 ** 6)}
+            'dec_seed': rng.randrange(10 ** 6), 'big': rng.chance(0.03)}
     if kind == 'rdms':
         plan['family'] = gen_family(rng, n_cond=(2, 14) if rng.chance(0.4) else (2, 8), n_rdm=(1, 6))
         plan['pre_ops'] = c10.gen_ops(rng, rng.randint(0, 6), weights=[w for w in c10.WEIGHTS if w[0] not in ('to_df', 'size_recovery', 'array_write')])
@@ -131,7 +131,7 @@ def nv(v):
     if isinstance(v, np.generic):
         v = v.item()
     if isinstance(v, bytes):
-        v = v.decode()
+        return {'__bytes__': v.decode(errors='replace')}      # raw bytes are not the string they encode
     if isinstance(v, (list, tuple)):
         return [nv(x) for x in v]
     if isinstance(v, dict):
@@ -315,6 +315,11 @@ def _decorate(obj, plan, kind):
         o.descriptors['count'] = 7
     if 'emptystr' in dec:
         o.descriptors['note'] = ''
+    if plan.get('big'):
+        # sizes at which writers switch strategy: a matrix above 1 MiB in Fortran order and as a strided view, a long text
+        o.descriptors['bigmat_f'] = np.asfortranarray(np.arange(400 * 420, dtype=float).reshape(400, 420) * 0.5)
+        o.descriptors['bigmat_t'] = np.arange(380 * 410, dtype=float).reshape(380, 410).T
+        o.descriptors['log'] = ('schritt ü %d; ' % (plan['dec_seed'] % 97)) * 5200          # > 64 KiB of text
     if 'blanks' in dec:
         # white space is part of a label: 'face ' and 'face' are different conditions
         ws = ['face', 'face ', ' face', 'face\t', 'fa ce', 'face\u3000', 'face\n']
